@@ -34,16 +34,32 @@ ByZid(notes, z) == { n \in notes : n.zid = z }
 MoveClauses(r) ==
   \* r == [src, dest (<< >> if the page did not exist), src2, dest2 : Seq(line), a, b : the note's lines in src,
   \*       zid, marker ("" | "x" | "~"), nsrc, ndest, nsrc2, ndest2 : sets of compiled notes, ok2 : both pages compile]
+  \* r.same: the destination is the note's own page - then `dest` is the page without the note's lines
   LET cont  == SubSeq(r.src, r.a + 1, r.b)
       old   == CHOOSE n \in r.nsrc : n.zid = r.zid
       moved == ByZid(r.ndest2, r.zid)
+      dest0 == IF r.same THEN Without(r.src, r.a, r.b) ELSE Closed(r.dest)
+      ndest0 == IF r.same THEN r.nsrc \ {old} ELSE r.ndest
   IN { c \in {"source-lines", "dest-lines", "pages-compile", "other-notes", "moved-once", "moved-kind", "moved-text", "moved-metadata"} :
-       CASE c = "source-lines"   -> r.src2 # Without(r.src, r.a, r.b)
-         [] c = "dest-lines"     -> ~InsertedOnce(Closed(r.dest), r.dest2, cont)
+       CASE c = "source-lines"   -> ~r.same /\ r.src2 # Without(r.src, r.a, r.b)
+         [] c = "dest-lines"     -> ~InsertedOnce(dest0, r.dest2, cont)
          [] c = "pages-compile"  -> ~r.ok2
-         [] c = "other-notes"    -> r.ok2 /\ ~( r.nsrc2 = r.nsrc \ {old} /\ r.ndest2 \ moved = r.ndest )
-         [] c = "moved-once"     -> r.ok2 /\ ~( Cardinality(moved) = 1 /\ ByZid(r.nsrc2, r.zid) = {} )
+         [] c = "other-notes"    -> r.ok2 /\ ~( (r.same \/ r.nsrc2 = r.nsrc \ {old}) /\ r.ndest2 \ moved = ndest0 )
+         [] c = "moved-once"     -> r.ok2 /\ ~( Cardinality(moved) = 1 /\ (r.same \/ ByZid(r.nsrc2, r.zid) = {}) )
          [] c = "moved-kind"     -> r.ok2 /\ \E m \in moved : m.kind # (IF r.marker = "" THEN old.kind ELSE r.marker)
          [] c = "moved-text"     -> r.ok2 /\ \E m \in moved : ~( old.words \subseteq m.words /\ m.contLines = old.contLines )
          [] c = "moved-metadata" -> r.ok2 /\ \E m \in moved : ~( old.tags \subseteq m.tags /\ old.props \subseteq m.props ) }
+
+---------------------------------------------------------------------------
+(* `file rename A B` (C14).  A file is a sequence of tokens: text chunks and page links [target, anchor].      *)
+(* Renaming retargets exactly the links whose target IS A (with or without anchor); every other token -       *)
+(* including links to pages whose names merely contain, extend or end with A - keeps its text.                  *)
+LinkTok(t, a) == [k |-> "link", target |-> t, anchor |-> a]
+TextTok(t)    == [k |-> "text", txt |-> t]
+RenderTok(tok) == IF tok.k = "text" THEN tok.txt
+                  ELSE "[[" \o tok.target \o (IF tok.anchor = "" THEN "" ELSE "#" \o tok.anchor) \o "]]"
+RECURSIVE RenderToks(_)
+RenderToks(ts) == IF ts = << >> THEN "" ELSE IF Len(ts) = 1 THEN RenderTok(ts[1]) ELSE RenderTok(ts[1]) \o " " \o RenderToks(Tail(ts))
+RenameTok(tok, A, B) == IF tok.k = "link" /\ tok.target = A THEN [tok EXCEPT !.target = B] ELSE tok
+RenameToks(ts, A, B) == [i \in DOMAIN ts |-> RenameTok(ts[i], A, B)]
 =============================================================================
